@@ -156,6 +156,110 @@ func ruleLockReleased(ctx *Ctx, r *Report) {
 	}
 	r.Counts["lock_sites"] = n
 	r.floor("G6", 6)
+
+	// G7: sync.Mutex is not re-entrant. While a method holds a mutex field of its receiver it
+	// calls no method of the same receiver that takes that mutex again (directly or through
+	// further methods of the receiver): the call would wait for its own caller for ever.
+	type mkey struct {
+		recv  string
+		field int
+	}
+	direct := map[*ssa.Function]map[mkey]bool{}
+	calls := map[*ssa.Function][]*ssa.Function{} // methods called on the same receiver
+	var fns []*ssa.Function
+	for _, fn := range ctx.srcFuncs("render", "sdf", "obj", "render/dc") {
+		if len(fn.Blocks) == 0 || fn.Signature.Recv() == nil || len(fn.Params) == 0 {
+			continue
+		}
+		fns = append(fns, fn)
+		direct[fn] = map[mkey]bool{}
+		allInstrs(fn, func(_ *ssa.BasicBlock, ins ssa.Instruction) {
+			if _, isCall := ins.(*ssa.Call); !isCall {
+				return
+			}
+			for _, name := range []string{"Lock", "RLock"} {
+				if m, ok := isMutexCall(ins, name); ok {
+					if fa, ok := m.(*ssa.FieldAddr); ok && fa.X == ssa.Value(fn.Params[0]) {
+						direct[fn][mkey{fn.Signature.Recv().Type().String(), fa.Field}] = true
+					}
+				}
+			}
+			c := ins.(*ssa.Call)
+			if g := c.Call.StaticCallee(); g != nil && inModule(g) && g.Signature.Recv() != nil && len(c.Call.Args) > 0 && c.Call.Args[0] == ssa.Value(fn.Params[0]) {
+				calls[fn] = append(calls[fn], g)
+			}
+		})
+	}
+	takes := func(g *ssa.Function, k mkey) bool {
+		seen := map[*ssa.Function]bool{}
+		var rec func(f *ssa.Function) bool
+		rec = func(f *ssa.Function) bool {
+			if seen[f] {
+				return false
+			}
+			seen[f] = true
+			if direct[f][k] {
+				return true
+			}
+			for _, h := range calls[f] {
+				if rec(h) {
+					return true
+				}
+			}
+			return false
+		}
+		return rec(g)
+	}
+	nHeld := 0
+	for _, fn := range fns {
+		for k := range direct[fn] {
+			k := k
+			// instructions executed while the mutex is held
+			bad := ""
+			allInstrs(fn, func(b *ssa.BasicBlock, ins ssa.Instruction) {
+				if _, isCall := ins.(*ssa.Call); !isCall {
+					return
+				}
+				m, ok := isMutexCall(ins, "Lock")
+				un := "Unlock"
+				if !ok {
+					m, ok = isMutexCall(ins, "RLock")
+					un = "RUnlock"
+				}
+				fa, isF := m.(*ssa.FieldAddr)
+				if !ok || !isF || fa.X != ssa.Value(fn.Params[0]) || fa.Field != k.field {
+					return
+				}
+				seen := map[*ssa.BasicBlock]bool{}
+				var walk func(blk *ssa.BasicBlock, from int)
+				walk = func(blk *ssa.BasicBlock, from int) {
+					for i := from; i < len(blk.Instrs); i++ {
+						x := blk.Instrs[i]
+						c, isCall := x.(*ssa.Call)
+						if !isCall {
+							continue
+						}
+						if m2, ok := isMutexCall(x, un); ok && sameMutex(m, m2) {
+							return
+						}
+						if g := c.Call.StaticCallee(); g != nil && inModule(g) && g.Signature.Recv() != nil && len(c.Call.Args) > 0 && c.Call.Args[0] == ssa.Value(fn.Params[0]) && takes(g, k) {
+							bad += fmt.Sprintf(" %s is called at %s while the mutex it takes is held;", shortFn(g), ctx.pos(c.Pos()))
+						}
+					}
+					for _, su := range blk.Succs {
+						if !seen[su] {
+							seen[su] = true
+							walk(su, 0)
+						}
+					}
+				}
+				walk(b, instrIndex(ins)+1)
+			})
+			nHeld++
+			r.check("G7", fmt.Sprintf("%s|no-call-back-into-its-own-mutex#%d", shortFn(fn), k.field), fn.Pos(), bad == "", "sync.Mutex is not re-entrant;"+bad)
+		}
+	}
+	r.floor("G7", 4)
 }
 
 // lastPos: the last valid position among a block's instructions.
